@@ -118,3 +118,64 @@ Theorem generated_position_filter_tables_wrapper :
   ltac:(let t := type of position_filter_tables_rows_end_to_end_flat in exact t).
 Proof. exact position_filter_tables_rows_end_to_end_flat. Qed.
 Print Assumptions generated_position_filter_tables_wrapper.
+
+(* ==== C11 stated DIRECTLY ABOUT THE CODE: the frame returned by the function regenerated from the Python
+   source on this run has header header_spec (spelled out: _id, prefixed keys, the requested attributes
+   with the key and repeats removed, _sim_score iff requested) and EVERY row of it reads, position by
+   position, the cells of one left and one right source row (row_reads: keys at 1 and 2, every requested
+   attribute at its header position, the score last) -- for normal rows, rows of the empty-set branch
+   (ordinary rows of the per-chunk core) and missing-value rows (score NaN); with unique keys the source rows
+   are THE rows identified by the row's keys *)
+From SSJ Require Import CodeLevelCells CodeLevelCellsScores CodeLevelCellsFamilies.
+Theorem C11_code_header_spelled_out :
+  ltac:(let t := type of header_spec_spelled in exact t).
+Proof. exact header_spec_spelled. Qed.
+Print Assumptions C11_code_header_spelled_out.
+Theorem C11_code_jaccard :
+  ltac:(let t := type of C11_code_cells_jaccard in exact t).
+Proof. exact C11_code_cells_jaccard. Qed.
+Print Assumptions C11_code_jaccard.
+Theorem C11_code_cosine :
+  ltac:(let t := type of C11_code_cells_cosine in exact t).
+Proof. exact C11_code_cells_cosine. Qed.
+Print Assumptions C11_code_cosine.
+Theorem C11_code_dice :
+  ltac:(let t := type of C11_code_cells_dice in exact t).
+Proof. exact C11_code_cells_dice. Qed.
+Print Assumptions C11_code_dice.
+Theorem C11_code_overlap_coefficient :
+  ltac:(let t := type of C11_code_cells_overlap_coefficient in exact t).
+Proof. exact C11_code_cells_overlap_coefficient. Qed.
+Print Assumptions C11_code_overlap_coefficient.
+Theorem C11_code_edit_distance :
+  ltac:(let t := type of C11_code_cells_edit_distance in exact t).
+Proof. exact C11_code_cells_edit_distance. Qed.
+Print Assumptions C11_code_edit_distance.
+Theorem C11_code_overlap_join :
+  ltac:(let t := type of C11_code_cells_overlap_join in exact t).
+Proof. exact C11_code_cells_overlap_join. Qed.
+Print Assumptions C11_code_overlap_join.
+Theorem C11_code_overlap_filter :
+  ltac:(let t := type of C11_code_cells_overlap_filter in exact t).
+Proof. exact C11_code_cells_overlap_filter. Qed.
+Print Assumptions C11_code_overlap_filter.
+Theorem C11_code_size_filter :
+  ltac:(let t := type of C11_code_cells_size_filter in exact t).
+Proof. exact C11_code_cells_size_filter. Qed.
+Print Assumptions C11_code_size_filter.
+Theorem C11_code_prefix_filter :
+  ltac:(let t := type of C11_code_cells_prefix_filter in exact t).
+Proof. exact C11_code_cells_prefix_filter. Qed.
+Print Assumptions C11_code_prefix_filter.
+Theorem C11_code_position_filter :
+  ltac:(let t := type of C11_code_cells_position_filter in exact t).
+Proof. exact C11_code_cells_position_filter. Qed.
+Print Assumptions C11_code_position_filter.
+Theorem C11_code_rows_read_source_cells :
+  ltac:(let t := type of projects_reads in exact t).
+Proof. exact projects_reads. Qed.
+Print Assumptions C11_code_rows_read_source_cells.
+Theorem C11_code_source_rows_unique :
+  ltac:(let t := type of C11_frame_rows_unique in exact t).
+Proof. exact C11_frame_rows_unique. Qed.
+Print Assumptions C11_code_source_rows_unique.
